@@ -7,6 +7,7 @@ package sugardb
 import (
 	"context"
 	"fmt"
+	"net"
 	"strconv"
 	"strings"
 	"time"
@@ -278,7 +279,13 @@ func Verif_C05_LockOrder_Del()       { c05LockOrder(11, c05Bound()) }
 // MSET under a memory limit (noeviction): whatever the limit and the order in which the batch is
 // written, the command either replies OK with every pair stored, or replies with an error and
 // stores nothing. A half-applied batch corresponds to no sequential execution.
-func Verif_C05_MSetAllOrNothing() {
+func Verif_C05_MSetAllOrNothing() { verifMSetAllOrNothing("C05") }
+
+// Verif_C13_FailedMSetChangesNothing: the same scenario under C13 - a multi-key write that fails
+// (memory limit reached part-way) has written none of its keys.
+func Verif_C13_FailedMSetChangesNothing() { verifMSetAllOrNothing("C13") }
+
+func verifMSetAllOrNothing(tag string) {
 	vr.MapOrderND(true)
 	max := vr.Int64("max")
 	vr.Assume(max >= 1 && max <= 1<<20)
@@ -291,7 +298,7 @@ func Verif_C05_MSetAllOrNothing() {
 	v1, v2, v3 := vr.Tok("v1"), vr.Tok("v2"), vr.Tok("v3")
 	vr.Assume(k1 != k2 && k1 != k3 && k2 != k3)
 	reply, err, panicked := verifRun(s, "MSET", k1, v1, k2, v2, k3, v3)
-	vr.Assert(!panicked, "C05.mset.nopanic")
+	vr.Assert(!panicked, tag+".mset.nopanic")
 	if panicked {
 		vr.Reach("end")
 		return
@@ -303,9 +310,9 @@ func Verif_C05_MSetAllOrNothing() {
 		}
 	}
 	if err != nil {
-		vr.Assert(n == 0, "C05.mset.error_reply_means_nothing_written")
+		vr.Assert(n == 0, tag+".mset.error_reply_means_nothing_written")
 	} else {
-		vr.Assert(string(reply) == "+OK\r\n" && n == 3, "C05.mset.ok_reply_means_all_written")
+		vr.Assert(string(reply) == "+OK\r\n" && n == 3, tag+".mset.ok_reply_means_all_written")
 	}
 	vr.Reach("end")
 }
@@ -574,7 +581,13 @@ func Verif_C05_ActorsRunAfterAnyCommand() {
 // interleaving, the outcome is that of one of the two serial orders: in both of them the key exists
 // afterwards with the client's value - the pass may only remove a key that is expired at the moment
 // it removes it.
-func Verif_C05_ExpiryPassVersusWrite() {
+func Verif_C05_ExpiryPassVersusWrite() { verifExpiryPassVersusWrite("C05") }
+
+// Verif_C04_ExpiryPassVersusWrite: the same scenario under C04 - expiry never removes a key that, at
+// the moment it is removed, has no deadline or one that has not passed.
+func Verif_C04_ExpiryPassVersusWrite() { verifExpiryPassVersusWrite("C04") }
+
+func verifExpiryPassVersusWrite(tag string) {
 	write := vr.Choose("write", 3)
 	vr.PreemptAtLocks(c05Bound())
 	t0 := time.UnixMilli(1_700_000_000_000)
@@ -618,13 +631,70 @@ func Verif_C05_ExpiryPassVersusWrite() {
 			break
 		}
 	}
-	vr.Assert(!strings.Contains(crashed, "deadlock"), "C05.expiry_vs_write.nodeadlock")
+	vr.Assert(!strings.Contains(crashed, "deadlock"), tag+".expiry_vs_write.nodeadlock")
 	if crashed != "" {
 		vr.Reach("end")
 		return
 	}
-	vr.Assert(reply == "+OK\r\n", "C05.expiry_vs_write.write_acknowledged")
-	vr.Assert(dk == wantK, "C05.expiry_vs_write.acknowledged_write_survives_the_pass")
-	vr.Assert(do == wantOther, "C05.expiry_vs_write.live_key_untouched")
+	vr.Assert(reply == "+OK\r\n", tag+".expiry_vs_write.write_acknowledged")
+	vr.Assert(dk == wantK, tag+".expiry_vs_write.acknowledged_write_survives_the_pass")
+	vr.Assert(do == wantOther, tag+".expiry_vs_write.live_key_untouched")
+	vr.Reach("end")
+}
+
+// ---- commands of clients on different databases ----
+//
+// A client on database 1 runs a read-then-write command while a client on database 0 runs a command
+// that reaches across databases (FLUSHALL, SWAPDB 0 1) or into its own one (SET): every interleaving of
+// their keyspace calls gives the replies and the contents of both databases of one of the two serial orders.
+func Verif_C05_ClientsOnDifferentDatabases() {
+	n := vr.Int("n")
+	vr.Assume(n >= -1000 && n <= 1000)
+	first := [][]string{{"INCR", "k"}, {"APPEND", "k", "x"}, {"RENAME", "k", "k2"}}[vr.Choose("first", 3)]
+	second := [][]string{{"FLUSHALL"}, {"SWAPDB", "0", "1"}, {"SET", "k", "zero"}, {"FLUSHDB"}}[vr.Choose("second", 4)]
+	run := func(s *SugarDB, conn *net.Conn, argv []string) string {
+		reply, err, _ := verifRunTCP(s, conn, argv...)
+		if err != nil {
+			return "ERR"
+		}
+		return string(reply)
+	}
+	mk := func() (*SugarDB, *net.Conn, *net.Conn) {
+		s := c05Server()
+		verifPreset(s, 1, "k", n)
+		verifPreset(s, 0, "other", "o")
+		return s, verifTCPConn(s, 1), verifTCPConn(s, 0)
+	}
+	view := func(s *SugarDB) string { return c07View(s, []int{0, 1}, "k", "k2", "other") }
+	s12, a12, b12 := mk()
+	r1a := run(s12, a12, first)
+	r2a := run(s12, b12, second)
+	d12 := view(s12)
+	s21, a21, b21 := mk()
+	r2b := run(s21, b21, second)
+	r1b := run(s21, a21, first)
+	d21 := view(s21)
+	sc, ac, bc := mk()
+	var r1, r2 string
+	crashed := ""
+	func() {
+		defer func() {
+			if x := recover(); x != nil {
+				crashed = fmt.Sprint(x)
+			}
+		}()
+		vr.Go(func() { r2 = run(sc, bc, second) })
+		r1 = run(sc, ac, first)
+		vr.Join()
+	}()
+	vr.Assert(!strings.Contains(crashed, "deadlock"), "C05.cross_database.nodeadlock")
+	if crashed != "" {
+		vr.Reach("end")
+		return
+	}
+	dc := view(sc)
+	as12 := r1 == r1a && r2 == r2a && dc == d12
+	as21 := r1 == r1b && r2 == r2b && dc == d21
+	vr.Assert(as12 || as21, "C05.cross_database.equals_some_serial_order")
 	vr.Reach("end")
 }
